@@ -4,7 +4,7 @@
 From Coq Require Import List ZArith Bool String Permutation.
 From Qryn Require Import model.GoQuote model.LabelJson model.Fingerprint model.Labels
   model.SeriesIndex model.Dates model.CacheKey model.GoJson model.DdTags model.ProtoLabels model.SeriesDoc
-  proofs.FingerprintProofs proofs.FingerprintInjProofs proofs.LabelsProofs proofs.JsonQuoteProofs proofs.LabelDocReaderProofs proofs.ProtoLabelsProofs proofs.DdTagsProofs proofs.ProtoGuardProofs proofs.SeriesIndexProofs proofs.DiscoverProofs proofs.DiscoverWindowProofs proofs.DatesProofs proofs.CacheKeyProofs.
+  proofs.FingerprintProofs proofs.FingerprintInjProofs proofs.LabelsProofs proofs.JsonQuoteProofs proofs.LabelDocReaderProofs proofs.ProtoLabelsProofs proofs.GoJsonProofs proofs.DdTagsProofs proofs.ProtoGuardProofs proofs.SeriesIndexProofs proofs.DiscoverProofs proofs.DiscoverWindowProofs proofs.DatesProofs proofs.CacheKeyProofs.
 From Qryn Require model.Scans model.LogqlPlan model.SqlEval.
 Import ListNotations.
 Open Scope Z_scope.
@@ -70,6 +70,15 @@ Theorem otlp_label_names_distinct : forall resource scope record severity,
   NoDup (map fst (otlp_map resource scope record severity)).
 Proof. exact otlp_map_nodup. Qed.
 Print Assumptions otlp_label_names_distinct.
+
+(* OTLP label VALUES (model/AnyValue.v otlp_value = SanitizeValue over the any-value tree, tied to the code on generated trees):
+   the value made of a key-value list whose keys stay distinct after SanitizeKey does not depend on the order of its entries
+   (they pass through a Go map and encoding/json sorts the keys) - so a client that reorders a kvlist attribute keeps its series. *)
+Theorem otlp_kvlist_value_order_independent : forall e1 e2,
+  Permutation e1 e2 -> NoDup (map (fun kv => otlp_key (fst kv)) e1) ->
+  otlp_value (OKv e1) = otlp_value (OKv e2).
+Proof. exact otlp_kvlist_order_independent. Qed.
+Print Assumptions otlp_kvlist_value_order_independent.
 
 (* (a2'') ... but NOT of the sanitized label set for the decoders that skip sanitizeLabels (open finding
    labels-unsanitized-by-protocol): the Datadog request with ddtags "a.b:x" and the Loki push of {a.b="x", type="datadog"}
